@@ -47,8 +47,12 @@ pub enum OpResult {
     Panic(String),
     /// the search did not stop within the step bound after the stop flag was set
     NoHalt { steps_since_flag: u64, bound: u64 },
-    /// run step budget exhausted with the flag never set (inconclusive, not a violation)
+    /// the budget of goal attempts (or of work) of the run is exhausted and the call has not
+    /// returned: inconclusive, except on a query that can only end by its time-out (oracle)
     Budget,
+    /// a backstop outside the simulated world ended the call (stack depth, wall time, memory):
+    /// always inconclusive
+    Backstop,
 }
 
 #[derive(Serialize, Deserialize, Clone, Debug, PartialEq, Eq)]
@@ -424,6 +428,8 @@ fn probe(site: u32, arg: u64) {
         }
         vp::START_QUERY => {
             SIM.with(|s| s.borrow_mut().event(task, "start_query"));
+            // between the reset in make_query and what the caller does next (make_base_node)
+            sched_point();
         }
         vp::QUERY_STOPPED => {
             // one goal attempt (or one check in solve/solve_all) by the solver thread
@@ -835,7 +841,7 @@ fn run_body(scn: &Scenario, opts: ExecOpts) -> RunRecord {
             let call_id = if s.call_seq > calls_before { s.call_seq } else { 0 };
             (s.thunks_in_op.clone(), s.steps, call_id)
         });
-        let stop = matches!(result, OpResult::Panic(_) | OpResult::NoHalt { .. } | OpResult::Budget);
+        let stop = matches!(result, OpResult::Panic(_) | OpResult::NoHalt { .. } | OpResult::Budget | OpResult::Backstop);
         rec.ops.push(OpRecord {
             index,
             op: scn.history[index].clone(),
@@ -853,7 +859,7 @@ fn run_body(scn: &Scenario, opts: ExecOpts) -> RunRecord {
             break;
         }
     }
-    let aborted = rec.ops.last().map(|o| matches!(o.result, OpResult::Panic(_) | OpResult::NoHalt { .. } | OpResult::Budget)).unwrap_or(false);
+    let aborted = rec.ops.last().map(|o| matches!(o.result, OpResult::Panic(_) | OpResult::NoHalt { .. } | OpResult::Budget | OpResult::Backstop)).unwrap_or(false);
 
     // ---- drain: every timer still waiting fires inside the run ----
     SIM.with(|s| s.borrow_mut().event(0, "drain"));
@@ -898,8 +904,10 @@ fn run_body(scn: &Scenario, opts: ExecOpts) -> RunRecord {
 fn abort_result(p: Box<dyn std::any::Any + Send>) -> OpResult {
     if let Some(a) = p.downcast_ref::<AbortNoHalt>() {
         OpResult::NoHalt { steps_since_flag: a.steps_since_flag, bound: a.bound }
-    } else if p.downcast_ref::<AbortBudget>().is_some() || p.downcast_ref::<AbortDepth>().is_some() {
+    } else if p.downcast_ref::<AbortBudget>().is_some() {
         OpResult::Budget
+    } else if p.downcast_ref::<AbortDepth>().is_some() {
+        OpResult::Backstop
     } else {
         OpResult::Panic(panic_message(&p))
     }
@@ -1048,7 +1056,7 @@ fn engine_main(jobs: std::sync::mpsc::Receiver<Job>, results: std::sync::mpsc::S
                 let aborted = record
                     .as_ref()
                     .and_then(|r| r.ops.last())
-                    .map(|o| matches!(o.result, OpResult::Panic(_) | OpResult::NoHalt { .. } | OpResult::Budget))
+                    .map(|o| matches!(o.result, OpResult::Panic(_) | OpResult::NoHalt { .. } | OpResult::Budget | OpResult::Backstop))
                     .unwrap_or(false);
                 let outcome = match (record, sched) {
                     (Some(rec), Some(st)) if aborted => RunOutcome::Done(finish_record(rec, &st.log)),
